@@ -36,10 +36,12 @@ import unified_planning.engines as engines
 import unified_planning.engines.mixins as mixins
 from unified_planning.model.action import DurativeAction, InstantaneousAction
 from unified_planning.model.effect import Effect, EffectKind, SimulatedEffect
+from unified_planning.model.fluent import get_all_fluent_exp
 from unified_planning.model.fnode import FNode
 from unified_planning.model.metrics import PlanQualityMetric, MinimizeActionCosts
 from unified_planning.model.state import UPState
 from unified_planning.model.timing import TimeInterval, TimepointKind, Timing
+from unified_planning.model.types import _RealType
 from unified_planning.model import (
     AbstractProblem,
     Problem,
@@ -561,12 +563,6 @@ class TimeTriggeredPlanValidator(engines.engine.Engine, mixins.PlanValidatorMixi
             ]
         ] = []
 
-        plan_duration: Fraction = (
-            max(x[0] + (x[2] if x[2] else 0) for x in start_actions)
-            if start_actions
-            else Fraction(0)
-        )
-
         next_id = 0
         for timing, effects in problem.timed_effects.items():
             instantiated_timing = self._instantiate_timing(
@@ -584,7 +580,6 @@ class TimeTriggeredPlanValidator(engines.engine.Engine, mixins.PlanValidatorMixi
                     None,
                 )
             )
-            plan_duration = max(plan_duration, scheduled_effects[-1][0])
             next_id += 1
 
         for interval, goals in problem.timed_goals.items():
@@ -593,8 +588,6 @@ class TimeTriggeredPlanValidator(engines.engine.Engine, mixins.PlanValidatorMixi
                 action_start=Fraction(0),
                 action_duration=None,
             )
-            end_interval = Fraction(-1) if iint[1] is None else iint[1]
-            plan_duration = max(plan_duration, iint[0], end_interval)
             for g in goals:
                 durative_conditions.append(
                     (
@@ -606,10 +599,26 @@ class TimeTriggeredPlanValidator(engines.engine.Engine, mixins.PlanValidatorMixi
                 )
                 next_id += 1
 
-        for invariant in problem.state_invariants:
+        # State invariants and bounded numeric types (checked as state invariants,
+        # as the UPSequentialSimulator does) must hold in every state of the trace,
+        # from the initial one to the one produced by the last effect: the interval
+        # has no end.
+        always: List[FNode] = list(problem.state_invariants)
+        for f in problem.fluents:
+            f_type = f.type
+            if f_type.is_int_type() or f_type.is_real_type():
+                f_type = cast(_RealType, f_type)
+                lower_bound, upper_bound = f_type.lower_bound, f_type.upper_bound
+                if lower_bound is not None or upper_bound is not None:
+                    for f_e in get_all_fluent_exp(problem, f):
+                        if lower_bound is not None:
+                            always.append(em.LE(lower_bound, f_e))
+                        if upper_bound is not None:
+                            always.append(em.LE(f_e, upper_bound))
+        for invariant in always:
             durative_conditions.append(
                 (
-                    (Fraction(0), plan_duration, False),
+                    (Fraction(0), None, False),
                     next_id,
                     invariant,
                     None,
